@@ -34,3 +34,9 @@ theories/Model/Tree.vos theories/Model/Tree.vok theories/Model/Tree.required_vos
 theories/Model/Reporters.vo theories/Model/Reporters.glob theories/Model/Reporters.v.beautified theories/Model/Reporters.required_vo: theories/Model/Reporters.v theories/Base/Bytes.vo theories/Base/Utf8.vo theories/Base/Num.vo theories/Model/Elements.vo theories/Model/Dates.vo theories/Model/Tree.vo theories/Model/Writer.vo
 theories/Model/Reporters.vio: theories/Model/Reporters.v theories/Base/Bytes.vio theories/Base/Utf8.vio theories/Base/Num.vio theories/Model/Elements.vio theories/Model/Dates.vio theories/Model/Tree.vio theories/Model/Writer.vio
 theories/Model/Reporters.vos theories/Model/Reporters.vok theories/Model/Reporters.required_vos: theories/Model/Reporters.v theories/Base/Bytes.vos theories/Base/Utf8.vos theories/Base/Num.vos theories/Model/Elements.vos theories/Model/Dates.vos theories/Model/Tree.vos theories/Model/Writer.vos
+theories/Model/Cli.vo theories/Model/Cli.glob theories/Model/Cli.v.beautified theories/Model/Cli.required_vo: theories/Model/Cli.v theories/Base/Bytes.vo theories/Base/Utf8.vo theories/Base/Num.vo theories/Model/Scanner.vo theories/Model/Parser.vo theories/Model/Elements.vo theories/Model/Resolver.vo theories/Model/Dates.vo theories/Model/Tree.vo theories/Model/Writer.vo theories/Model/Reporters.vo
+theories/Model/Cli.vio: theories/Model/Cli.v theories/Base/Bytes.vio theories/Base/Utf8.vio theories/Base/Num.vio theories/Model/Scanner.vio theories/Model/Parser.vio theories/Model/Elements.vio theories/Model/Resolver.vio theories/Model/Dates.vio theories/Model/Tree.vio theories/Model/Writer.vio theories/Model/Reporters.vio
+theories/Model/Cli.vos theories/Model/Cli.vok theories/Model/Cli.required_vos: theories/Model/Cli.v theories/Base/Bytes.vos theories/Base/Utf8.vos theories/Base/Num.vos theories/Model/Scanner.vos theories/Model/Parser.vos theories/Model/Elements.vos theories/Model/Resolver.vos theories/Model/Dates.vos theories/Model/Tree.vos theories/Model/Writer.vos theories/Model/Reporters.vos
+theories/Model/Driver.vo theories/Model/Driver.glob theories/Model/Driver.v.beautified theories/Model/Driver.required_vo: theories/Model/Driver.v theories/Base/Bytes.vo theories/Base/Utf8.vo theories/Base/Num.vo theories/Base/GoFloat.vo theories/Model/Scanner.vo theories/Model/Parser.vo theories/Model/Elements.vo theories/Model/Resolver.vo theories/Model/Dates.vo theories/Model/Tree.vo theories/Model/Writer.vo theories/Model/Reporters.vo theories/Model/Cli.vo
+theories/Model/Driver.vio: theories/Model/Driver.v theories/Base/Bytes.vio theories/Base/Utf8.vio theories/Base/Num.vio theories/Base/GoFloat.vio theories/Model/Scanner.vio theories/Model/Parser.vio theories/Model/Elements.vio theories/Model/Resolver.vio theories/Model/Dates.vio theories/Model/Tree.vio theories/Model/Writer.vio theories/Model/Reporters.vio theories/Model/Cli.vio
+theories/Model/Driver.vos theories/Model/Driver.vok theories/Model/Driver.required_vos: theories/Model/Driver.v theories/Base/Bytes.vos theories/Base/Utf8.vos theories/Base/Num.vos theories/Base/GoFloat.vos theories/Model/Scanner.vos theories/Model/Parser.vos theories/Model/Elements.vos theories/Model/Resolver.vos theories/Model/Dates.vos theories/Model/Tree.vos theories/Model/Writer.vos theories/Model/Reporters.vos theories/Model/Cli.vos
